@@ -428,7 +428,7 @@ class Track:
 QTARGETS = ["qd", "qr", "server", "server", "threadpool", "reneging"]
 
 
-def pipeline_strategy(kinds, safe=False):
+def pipeline_strategy(kinds, safe=False, no_setlimit=False):
     def s(tier):
         big = tier == "thorough"
         arr = st.fixed_dictionaries({"t": st.sampled_from([0, 0, 0, 1, 2, 2, 3, 4, 6]), "hops": st.integers(0, 2),
@@ -438,7 +438,7 @@ def pipeline_strategy(kinds, safe=False):
             "qcap": st.sampled_from([0, 0, 1, 2, 3]), "policy": st.sampled_from(["fifo", "fifo", "lifo", "priority"]),
             "conc": st.sampled_from(["fixed", "fixed", "dynamic", "weighted"]),
             "svc": st.lists(st.sampled_from([0, 1, 1, 2, 3, 4]), min_size=1, max_size=5),
-            "setlim": st.lists(st.tuples(st.sampled_from([1, 2, 3, 5, 7]), st.integers(1, 4)), max_size=0 if safe else 2),
+            "setlim": st.lists(st.tuples(st.sampled_from([1, 2, 3, 5, 7]), st.integers(1, 4)), max_size=0 if (safe or no_setlimit) else 2),
             "chain": st.booleans(),
             "arrivals": st.lists(arr, min_size=1, max_size=14 if big else 10),
             "spread": st.just(True) if safe else st.just(False),
@@ -446,8 +446,10 @@ def pipeline_strategy(kinds, safe=False):
     return s
 
 
-def pipeline_execute(obl, safe=False):
+def pipeline_execute(obl, safe=False, no_setlimit=False):
     def execute(case):
+        if no_setlimit:
+            case = dict(case, setlim=[])         # restricted domain: the limit never changes during the run
         from happysimulator import Entity, Event, Instant, Simulation
         from happysimulator.components.queue import Queue
         from happysimulator.components.queue_driver import QueueDriver
@@ -1053,6 +1055,10 @@ OBLIGATIONS = [
                "Queue + QueueDriver + harness worker, and the documented QueuedResource pattern (_in_flight / has_capacity): " + RULE_PIPE),
     Obligation("server", pipeline_strategy(["server", "server", "threadpool", "reneging"]), pipeline_execute("server"),
                {"quick": 1600, "thorough": 70000}, "Server / ThreadPool / RenegingQueuedResource: " + RULE_PIPE),
+    Obligation("server-safe", pipeline_strategy(["server", "server", "threadpool", "reneging"], no_setlimit=True),
+               pipeline_execute("server-safe", no_setlimit=True), {"quick": 800, "thorough": 30000},
+               "restricted domain of `server` without exclusions: no set_limit() event ever happens (Fixed, Weighted, or Dynamic with a "
+               "constant limit), so the open finding 'raised limit does not wake the driver' cannot occur; same clauses, same non-trivial rule"),
     Obligation("qd-safe", pipeline_strategy(["qd", "qr", "server", "threadpool"], safe=True), pipeline_execute("qd-safe", safe=True),
                {"quick": 600, "thorough": 20000},
                "restricted domain without exclusions: one worker slot, at most one arrival per instant (odd ticks), even service times so that "
